@@ -100,9 +100,10 @@ c.ensures('no-wait-for-a-stage', "result is True ==> all_but(emitted(self), -1, 
 
 # ---- time
 c = method('_time', ('REGISTER', 'time'), serves=('C06', 'C10', 'C11'))
-c = method('_process_time_patterns', serves=('C06', 'C11'))
-c.loop(0, ['errs() == old(errs())', 'tokens_consumed() > old(tokens_consumed())', 'all_patterns_valid(self)'], **PL.token_loop(keep=('time_pattern',)))
+c = method('_process_time_patterns', serves=('C06', 'C11', 'C10', 'C01'))
+c.loop(0, ['errs() == old(errs())', 'tokens_consumed() > old(tokens_consumed())', 'all_patterns_valid(self)', 'first_inits_rest_unite(self)'], **PL.token_loop(keep=('time_pattern',)))
 c.ensures('only-patterns-that-can-match-are-compiled', 'result is True ==> all_patterns_valid(self)')
+c.ensures('the-first-pattern-replaces-the-alternatives-are-added', 'result is True ==> first_inits_rest_unite(self) and len(emitted(self)) >= 1')
 
 
 # ---- assignment / definitions
@@ -112,6 +113,27 @@ c.ensures('the-variable-exists-only-after-its-first-value-was-parsed',
           "(ghost('names_declared_before_last_phrase') is None or ghost('names_declared_before_last_phrase') == 0) "
           "and (falsy(result) ==> len(globals_added(self)) + len(locals_added(self)) == 0) "
           "and (result is True ==> len(globals_added(self)) + len(locals_added(self)) == 1)")
+# any name of the documented form can be a variable: also one spelled like a function (round, sin, ... or an earlier routine of
+# the script); only a macro (a constant) is refused.  The target name is accepted = the value phrase after it is reached.
+for styp, accepted in (('ROUTINE', True), ('VAR', True), ('MACRO', False)):
+    c = contract(P, 'Parser._assignment', serves=['C06', 'C16'], uses=('parser',), name='Parser._assignment[ASSIGN round ..., the name is known as %s]' % (styp or 'nothing'))
+    def _setup(b, case, styp=styp):
+        pr = PL.parser(b, first_token=PL.concrete_token(b.I, 'ASSIGN'), then=(PL.concrete_token(b.I, 'NAME', 'round'),))
+        sym = None
+        if styp:
+            symcls = b.cls('bardolph.lib.symbol', 'Symbol')
+            st = b.cls('bardolph.lib.symbol', 'SymbolType')
+            sym = PyObj(symcls, {'_name': 'round', '_symbol_type': st.members[styp], '_value': b.sym('int', 'whatever')})
+        for table in (pr.attrs['_context'].attrs['_globals'], pr.attrs['_context'].attrs['_locals']):
+            b.I.ghost['symbols'][(id(table), repr('round'))] = sym
+        b.ghost('nesting_at_last_phrase', None)
+        return {'self': pr}
+    c.setup(_setup)
+    family(c)
+    if accepted:
+        c.ensures('the-name-is-accepted-as-a-variable', "ghost('nesting_at_last_phrase') is not None")
+    else:
+        c.ensures('a-constant-cannot-be-assigned-to', "falsy(result) and ghost('nesting_at_last_phrase') is None")
 c = method('_definition', 'DEFINE', serves=('C06', 'C01'))
 c = method('_return', 'RETURN', serves=('C06', 'C01', 'C03'))
 c.ensures('template', "result is True ==> instr(emitted(self)[-1], 'RETURN') and len(emitted(self)) == 2 and "
@@ -182,6 +204,15 @@ for dname, mk in DESTS:
     c = method('_rvalue', serves=('C06', 'C02', 'C01'), setup_extra=lambda b, pr, mk=mk: {'dest': mk(b)})
     c.name += '[dest=%s]' % dname
     c.ensures('one-value-phrase', "result is True ==> len(emitted(self)) <= 2")
+    # a function call used as the value: the callee leaves it in the result register, from where it goes to dest
+    # (MOVE source, destination — the order the VM reads)
+    if dname == 'OpCode.PUSH':
+        c.ensures('call-result-pushed', "result is True and len(emitted(self)) == 2 and is_seg(emitted(self)[0], 'call') ==> instr(emitted(self)[1], 'PUSH', Register.RESULT)")
+    elif dname == 'Register.RESULT':
+        c.ensures('call-result-stays-in-the-result-register', "result is True and len(emitted(self)) >= 1 and is_seg(emitted(self)[0], 'call') ==> len(emitted(self)) == 1")
+    else:
+        c.ensures('call-result-moved-from-the-result-register-into-dest', "result is True and len(emitted(self)) >= 1 and is_seg(emitted(self)[0], 'call') ==> "
+                  "len(emitted(self)) == 2 and instr(emitted(self)[1], 'MOVE', Register.RESULT) and same_dest(emitted(self)[1].param1, dest)")
     if dname == 'OpCode.PUSH':
         c.ensures('pushes-the-value', "result is True and len(emitted(self)) == 1 and not is_seg(emitted(self)[0]) ==> "
                   "instr(emitted(self)[0], 'PUSH') or instr(emitted(self)[0], 'PUSHQ')")
@@ -272,6 +303,10 @@ c.ensures('loop-frame-opened-first-closed-last', "result is True ==> instr(emitt
           "and no_instr(emitted(_p)[1:-1], 'LOOP') and no_instr(emitted(_p)[1:-1], 'END_LOOP')")
 c.ensures('breaks-leave-through-the-loops-exit-point', "result is True ==> ghost('breaks_fixed') == 1 and jump_targets(_p, 'IF_FALSE', ghost('break_target'))")
 c.ensures('exit-point-leads-straight-to-this-loops-end-loop', "result is True ==> exit_sequence_ok(_p, ghost('break_target'))")
+# a loop over lights, groups or locations has pushed their names: what a break left unvisited is popped before END_LOOP,
+# or an enclosing loop would take the leftovers for its own names
+c.ensures('names-a-break-left-unvisited-are-popped',
+          "result is True and self._loop_type in (_LoopType.ALL, _LoopType.LIST, _LoopType.GROUPS, _LoopType.LOCATIONS) ==> exit_sequence_pops(_p, ghost('break_target'))")
 c.ensures('back-jump-lands-on-the-test', "result is True ==> instr(emitted(_p)[-2], 'JUMP', JumpCondition.ALWAYS) and emitted(_p)[-2].param1 < 0")
 c.ensures('loop-context-popped', 'result is True ==> len(context_stack._loop_stack) == len(old(context_stack._loop_stack))')
 
